@@ -272,14 +272,22 @@ def work_wide(args):
             ver = (1, i % 3, i)
             obj = mini.Alg(a, ver=(9, 9, 9), svs=[mini.SV('s', ver=(9, 9, 9))])
             ctx.count('resets')
-            dawgie.db.reset(5, 'T', 't', obj)
+            try:
+                dawgie.db.reset(5, 'T', 't', obj)
+            except Exception as e:  # noqa
+                ctx.violation(f'C08/reset/raises/{type(e).__name__}/wide', f'reset(5,T,t,{a}) raised {e!r}',
+                              {'content': content, 'wide': True, 'op': ['reset', [5, 'T', 't', a]]})
+                continue
             if tuple(obj._get_ver()) != ver:
                 ctx.violation('C08/reset/wrong-version/wide',
                               f'reset(5,T,t,{a}) set version {tuple(obj._get_ver())}, stored {ver} '
                               f'(algorithm id {DBI().tables.alg.get(f"0:parent___{a}___version:" + ".".join(map(str, ver)))})',
                               {'content': content, 'wide': True, 'op': ['reset', [5, 'T', 't', a]]})
             ctx.count('traces')
-            got = dawgie.db.trace([f't.{a}'])
+            try:
+                got = dawgie.db.trace([f't.{a}'])
+            except Exception as e:  # noqa
+                got = f'raised {e!r}'
             want = {'T': {f't.{a}': max(5, runs[i % len(runs)])}}
             if got != want:
                 ctx.violation('C08/trace/wide', f'trace([t.{a}]) = {got}, expected {want}',
@@ -288,7 +296,12 @@ def work_wide(args):
         for i, a in enumerate(algs):
             before = dict(prime)
             ctx.count('removes')
-            dawgie.db.remove(5, 'T', 't', a, 's', 'v')
+            try:
+                dawgie.db.remove(5, 'T', 't', a, 's', 'v')
+            except Exception as e:  # noqa
+                ctx.violation(f'C08/remove/raises/{type(e).__name__}/wide', f'remove(5,T,t,{a},s,v) raised {e!r}',
+                              {'content': content, 'wide': True, 'op': ['remove', [5, 'T', 't', a, 's', 'v']]})
+                continue
             gone = set(before) - set(dict(prime))
             if len(gone) != 1:
                 ctx.violation('C08/remove/wide', f'remove(5,T,t,{a},s,v) deleted {sorted(gone)}',
